@@ -237,13 +237,24 @@ def r3_composition(repo: Repo, rep):
         rep.undecided(R, fi.site(), fi.fq, "a path for independent factors", "none")
     for mod, cname in (("translate", "Translate"), ("rotate", "Rotate")):
         ci = repo.cls(f"{ops}.{mod}.{cname}")
-        fi, ps = rets(ci, "volume")
-        for p in ps:
-            rep.check(R, dump(p.ret) == "self.domain.volume(params=params, device=device)", fi.site(p.ret_node), fi.fq, "rigid motions keep the measure: inner volume()", dump(p.ret), dump(p.ret))
-        fi, ps = rets(ci, "set_volume")
-        for p in ps:
-            rep.check(R, dump(p.ret) == f"self.domain.set_volume({fi.params[1]})", fi.site(p.ret_node), fi.fq, "set_volume forwarded to the inner domain", dump(p.ret), dump(p.ret))
-        rep.check(R, "_get_volume" not in ci.methods, ci.module.relpath, ci.fq, "no private _get_volume that could bypass the inner user volume", "defines _get_volume", "_get_volume")
+        defined = [m for m in ("volume", "_get_volume") if m in ci.methods]
+        if not defined:
+            rep.violation(R, ci.module.relpath, ci.fq, "the measure of a moved domain is the inner domain's volume()", "neither volume nor _get_volume defined", "no volume")
+            continue
+        for m in defined:
+            fi, ps = rets(ci, m)
+            for p in ps:
+                t = dump(p.ret).replace(" ", "")
+                ok = t in ("self.domain.volume(params=params,device=device)", "self.domain.volume(params,device=device)", "self.domain.volume(params,device)")
+                rep.check(R, ok, fi.site(p.ret_node), fi.fq, "rigid motions keep the measure: the inner domain's public volume()", dump(p.ret), dump(p.ret))
+        if "volume" in ci.methods:
+            # volume() is overridden without consulting _user_volume: set_volume must reach the inner domain
+            if "set_volume" not in ci.methods:
+                rep.violation(R, ci.module.relpath, ci.fq, "set_volume forwarded to the inner domain when volume() is overridden", "set_volume not overridden", "set_volume")
+            else:
+                fi, ps = rets(ci, "set_volume")
+                for p in ps:
+                    rep.check(R, dump(p.ret) == f"self.domain.set_volume({fi.params[1]})", fi.site(p.ret_node), fi.fq, "set_volume forwarded to the inner domain", dump(p.ret), dump(p.ret))
 
 
 def r4_override(repo: Repo, rep):
